@@ -216,6 +216,8 @@ def minimise(run, verdict, props, max_tests=250):
     budget = [max_tests]
     sig = signature(verdict, run)
     best = copy.deepcopy(run)
+    # the report must not depend on the cheap isolation mode: every reference in its own process
+    best.setdefault('config', {})['ref_isolation'] = 'fork'
     # 1. only the client involved
     if len(best['clients']) > 1:
         cand = only_client(best, verdict['c'])
